@@ -618,7 +618,7 @@ func openers() []caseIn {
 }
 
 func TestC17(t *testing.T) {
-	cfg := LoadCfg(t, 150, 3000)
+	cfg := LoadCfg(t, 240, 4000)
 	em := NewEmitter(t, cfg.Out)
 	defer em.Close()
 	run := func(ci caseIn) {
